@@ -13,14 +13,14 @@ from .hmodel import Model, ModelError
 HPROFILES = {
     # weights of op kinds after the initial construction phase
     'C15': {'requires': 5, 'requires_remove': 2, 'cycles': 6, 'job': 2,
-            'sched': 2, 'add': 1, 'sanitize': 1, 'back_edge': 4},
+            'chain': 0.12, 'sched': 2, 'add': 1, 'sanitize': 1, 'back_edge': 4},
     'C16': {'requires': 4, 'dangling': 5, 'sanitize': 5, 'job': 2, 'sched': 2,
             'add': 1, 'remove': 1, 'seq': 1},
     'C17': {'requires': 4, 'requires_remove': 2, 'query': 8, 'job': 2,
             'sched': 2, 'add': 1, 'remove': 2, 'bypass': 1, 'seq': 1,
             'keep_only': 1, 'dangling': 2},
-    'C18': {'requires': 3, 'bypass': 5, 'keep_only': 3, 'keep_between': 4,
-            'job': 2, 'seq': 1, 'query': 1, 'sched': 1},
+    'C18': {'requires': 3, 'requires_remove': 2, 'bypass': 5, 'keep_only': 3,
+            'keep_between': 4, 'job': 2, 'seq': 1, 'query': 2, 'sched': 1},
     # histories that end with run(): queries, edits and surgery first
     'C01': {'requires': 4, 'requires_remove': 1, 'query': 4, 'job': 3,
             'sched': 1, 'add': 2, 'update': 1, 'remove': 3, 'bypass': 3,
@@ -395,8 +395,23 @@ class HGen:
     def op_sanitize(self):
         sched = self.pick_sched()
         self.emit({"op": "sanitize", "sched": sched,
-                   "twice": self.rng.random() < 0.7})
+                   "twice": self.rng.random() < 0.7,
+                   "verbose": self.rng.random() < 0.25})
         self.m.sanitize(sched)
+
+    def op_chain(self):
+        """a long requirement chain (a Sequence of many jobs) in a scheduler"""
+        sched = self.pick_sched()
+        n = self.rng.choice((25, 40, 55))
+        names = [self.fresh('a') for _ in range(n)]
+        self.emit({"op": "chain", "sched": sched, "names": names})
+        prev = None
+        for name in names:
+            self.m.new_job(name, False, None, sched)
+            if prev is not None:
+                self.m.req[name].add(prev)
+            self.owner[name] = sched
+            prev = name
 
     def op_query(self):
         sched = self.pick_sched()
@@ -494,6 +509,7 @@ class HGen:
             'seq': self.op_seq, 'append': self.op_append,
             'seq_requires': self.op_seq_requires, 'query': self.op_query,
             'bypass': self.op_bypass, 'keep_only': self.op_keep_only,
+            'chain': self.op_chain,
             'keep_between': self.op_keep_between,
         }
         for _ in range(rng.choice((4, 6, 8, 10, 14, 20))):
